@@ -135,6 +135,25 @@ RelStreamOk(r) ==
            \/ \E k \in 1..Len(ks) : Len(ks[k].res) # Cardinality({CoordOf(ks[k].res[j]) : j \in 1..Len(ks[k].res)})   \* a child delivers duplicates
            \/ s.status = "ok" /\ SameBag(s.res, {x \in owed : x[4] > 0})
 
+(* The TileJSON document of an operation (beyond the listed properties; TileJson.tla): an overlay hands on the MERGE of its
+   sources' documents, in list order, starting from the default document; a filter hands on its source's document LIMITED by the
+   three values update_from_pyramid takes from the filter's own coverage (geographic bounds, lowest and highest level).  Stated
+   relative to the direct children's OBSERVED documents, like RootOwes.  Bounds are in micro-degrees as logged. *)
+TJ == INSTANCE TileJson
+TjDefault == [bounds |-> TJ!NoBox, center |-> <<>>, vals |-> TJ!Put(TJ!EmptyMap, "tilejson", TJ!S("3.0.0")), layers |-> TJ!EmptyMap]
+RECURSIVE TjFold(_, _, _)
+TjFold(acc, docs, k) == IF k > Len(docs) THEN acc ELSE TjFold(TJ!Merge(acc, docs[k]), docs, k + 1)
+TjLimit(d, geo, zmin, zmax) ==
+    LET d1 == IF geo = <<>> THEN d ELSE TJ!LimitBBox(d, geo)
+        d2 == IF zmin < 0 THEN d1 ELSE TJ!LimitMinZoom(d1, zmin)
+    IN IF zmax < 0 THEN d2 ELSE TJ!LimitMaxZoom(d2, zmax)
+HasTj(r) == "tj" \in DOMAIN r /\ \A k \in 1..Len(r.tj.kids) : "unbuildable" \notin DOMAIN r.tj.kids[k]
+TjOk(r) ==
+    LET kids == [k \in 1..Len(r.tj.kids) |-> TJ!DocOf(r.tj.kids[k])]
+        root == TJ!DocOf(r.tj.root)
+    IN IF r.tree.op = "overlay" THEN root = TjFold(TjDefault, kids, 1)
+       ELSE root = TjLimit(kids[1], r.tj.geo, r.tj.zmin, r.tj.zmax)
+
 (* judging one observed operation *)
 PipeFails1(r) ==
     LET S == r.sources  t == r.tree  want == Sem(t, S) IN
@@ -161,6 +180,7 @@ PipeFails1(r) ==
           Fails("stream_sem", \A i \in 1..Len(r.streams) :
                    LET s == r.streams[i] IN
                    s.status = "ok" /\ SameBag(s.res, {x \in want : InBox(x, s.box)})) \cup
+          Fails("tilejson_of_operation", ~HasTj(r) \/ TjOk(r)) \cup
           Fails("rel_lookup", ~KidsOk(r) \/ RelLookupOk(r)) \cup
           Fails("rel_stream", ~KidsOk(r) \/ RelStreamOk(r)) \cup
           Fails("stream", \A i \in 1..Len(r.streams) :
